@@ -201,14 +201,14 @@ PROPS = {
     ),
     "C15": dict(
         harnesses=[
-            dict(run="pkg/zzc15.VerifC15Restart", quick=dict(attempts=3, oraclefaults=0), thorough=dict(attempts=3, oraclefaults=0), covers=["failed-writes-consumed-revisions", "follower-sync", "done"], no_native=True),
+            dict(run="pkg/zzc15.VerifC15Restart", quick=dict(attempts=2, failures=2, oraclefaults=0, native_idle_ms=400), thorough=dict(attempts=3, failures=2, oraclefaults=0, native_idle_ms=400), covers=["failed-writes-consumed-revisions", "follower-sync", "done"], validate=1),
             dict(run="pkg/zzc15.VerifC15Gate", quick=dict(preempt=2), thorough=dict(preempt=3), covers=["restart-same-identity", "client-served-by-new-leader", "client-turned-away", "done"], no_native=True),
-            dict(run="pkg/zzc15.VerifC15Restart", name="C15_oraclefault", quick=dict(attempts=1, oraclefaults=3), thorough=dict(attempts=2, oraclefaults=4), covers=["oracle-fault-during-takeover", "follower-sync", "done"], no_native=True),
+            dict(run="pkg/zzc15.VerifC15Restart", name="C15_oraclefault", quick=dict(attempts=1, oraclefaults=3, native_idle_ms=400), thorough=dict(attempts=2, oraclefaults=4, native_idle_ms=400), covers=["oracle-fault-during-takeover", "follower-sync", "done"], validate=1),
         ],
-        bounds=dict(quick="old leader elected through the real election path, 3 write attempts with symbolic expected revisions (any mix of successes, failed conditions and future-revision rejections) each optionally followed by a lock renewal; new node with 0..2 follower revision syncs in any order, elected over the same store; engine clock contract: wall clock/PD timestamp (>= 1 unit per attempt) or count of committed transactions; separately (1 write attempt): the engine's timestamp oracle fails once at any of its first 3 calls during the take-over and the elector runs one more round",
-                    thorough="3 write attempts (4 exceeded the budget); oracle fault with 2 write attempts, at any of the first 4 calls"),
-        outside="client-go's elector loop (modelled as one Get + Create/Update + OnStartedLeading); real clocks; the assumption 'fewer than one write attempt per clock unit' for wall-clock/PD engines",
-        assumptions=["leaderelection.RunOrDie is replaced by a model of one successful acquire pass; counterexamples of this harness are NOT replayed natively (the real elector cannot be stopped and exits the process on lost leadership) — the Badger clock finding was reproduced by hand on a real Badger directory during design"],
+        bounds=dict(quick="old leader elected through the real election path, 2 refused writes, then 2 write attempts with symbolic expected revisions (any mix of successes, failed conditions and future-revision rejections) each optionally followed by a lock renewal; new node with 0..2 follower revision syncs in any order, elected over the same store; engine clock contract: wall clock/PD timestamp (>= 1 unit per attempt) or count of committed transactions; separately (1 write attempt): the engine's timestamp oracle fails once at any of its first 3 calls during the take-over and the elector runs one more round; take-over gate: a client write arriving at any moment of the new node's election pass (another node, or the same node restarted under the identity the record still names), <= 2 scheduling delays: whenever the node says it is leader its revisions are above everything stored",
+                    thorough="2 refused writes + 3 write attempts; oracle fault with 2 write attempts, at any of the first 4 calls; the gate with 3 delays"),
+        outside="client-go's elector loop beyond one acquire pass and the immediate first renewal (natively the real elector runs, with its goroutines stopped or held back by the harness's storage wrapper so that the callback precedes the first renewal); real clocks; the assumption 'fewer than one write attempt per clock unit' for wall-clock/PD engines",
+        assumptions=["leaderelection.RunOrDie / LeaderElector are replaced by a model of one successful acquire pass followed by the renew loop's immediate first pass; counterexamples and sampled paths of VerifC15Restart are replayed natively with client-go's real elector (the old leader's elector is made to hang, the new one sits out the real 8 s lease); VerifC15Gate is engine-only (the recorded schedule cannot be forced on the real elector's goroutines)"],
     ),
     "C20": dict(
         harnesses=[
